@@ -17,6 +17,7 @@ import (
 	"github.com/notaryproject/notation-go/zzverif/lib/forge"
 	"github.com/notaryproject/notation-go/zzverif/lib/hx"
 	"github.com/notaryproject/notation-go/zzverif/lib/pki"
+	"github.com/notaryproject/notation-go/zzverif/lib/tsa"
 	"github.com/opencontainers/go-digest"
 	ocispec "github.com/opencontainers/image-spec/specs-go/v1"
 )
@@ -45,6 +46,7 @@ type Fixture struct {
 	// the artifact / blob that no signature covers
 	OtherDesc ocispec.Descriptor `json:"other_desc"`
 	OtherBlob []byte             `json:"other_blob"`
+	TSARootDER []byte            `json:"tsa_root_der"`
 	// Sigs: "<oci|blob>/<jws|cose>[+plugin]" valid envelopes
 	Sigs map[string][]byte `json:"sigs"`
 	// Bases: base inputs of the derived byte mutations ("jws", "cose", "crl-der")
@@ -67,7 +69,7 @@ type world struct {
 	chain   *pki.Chain
 }
 
-const fixtureVersion = "c12-fixture-5"
+const fixtureVersion = "c12-fixture-6"
 
 // loadOrBuildWorld reuses the fixture of an earlier run while it is younger than 12 h, so that
 // the case list (byte offsets, lengths) and the class histogram are the same from run to run:
@@ -95,6 +97,13 @@ func loadOrBuildWorld() (*world, time.Time) {
 
 // attrKinds: the extended signed attribute a matrix signature carries besides the plugin headers
 var attrKinds = []string{"none", "str-crit", "str-noncrit", "int-crit", "int-noncrit"}
+
+// timestampKinds: the RFC 3161 countersignature a matrix signature carries
+var timestampKinds = []string{"none", "valid", "unrelated-tsa", "wrong-imprint", "garbage"}
+
+func timestampSigName(kind, format, ts string) string {
+	return fmt.Sprintf("m:%s/%s/timestamp=%s", kind, format, ts)
+}
 
 func matrixSigName(kind, format string, plug bool, attr string) string {
 	return fmt.Sprintf("m:%s/%s/plugin=%v/%s", kind, format, plug, attr)
@@ -201,6 +210,42 @@ func buildWorld() *world {
 					}
 					w.Sigs[matrixSigName(kind, sf, pl, at)] = forge.Build(forge.Spec{Format: f, Chain: w.chain.X509(), Key: w.chain.Leaf().Key, Payload: payload, Agent: "c12/1.0", Ext: ext})
 				}
+			}
+		}
+	}
+	// timestamped signatures: RFC 3161 countersignature from the trusted TSA, from an unrelated TSA, and garbage
+	nb, na := pki.DefaultWindow()
+	trusted := tsa.New("c12", 0, tsa.LeafProper, nb, na)
+	other := tsa.New("c12-unrelated", 1, tsa.LeafProper, nb, na)
+	w.TSARootDER = trusted.Root.Cert.Raw
+	gen := time.Now().Add(-2 * time.Hour)
+	for _, f := range forge.Formats {
+		sf := "jws"
+		if f == forge.COSE {
+			sf = "cose"
+		}
+		for _, kind := range []string{"oci", "blob"} {
+			payload := ociPayload
+			if kind == "blob" {
+				payload = blobPayload
+			}
+			for _, tk := range timestampKinds {
+				if tk == "none" {
+					continue
+				}
+				tk := tk
+				w.Sigs[timestampSigName(kind, sf, tk)] = forge.Build(forge.Spec{Format: f, Chain: w.chain.X509(), Key: w.chain.Leaf().Key, Payload: payload, Agent: "c12/1.0", SigningTime: gen.Add(-time.Minute),
+					Timestamp: func(sig []byte) []byte {
+						switch tk {
+						case "valid":
+							return trusted.Token(tsa.Opts{Message: sig, GenTime: gen})
+						case "unrelated-tsa":
+							return other.Token(tsa.Opts{Message: sig, GenTime: gen})
+						case "wrong-imprint":
+							return trusted.Token(tsa.Opts{Message: sig, GenTime: gen, WrongImprint: true})
+						}
+						return []byte("\x30\x03not a time-stamp token")
+					}})
 			}
 		}
 	}
